@@ -13,5 +13,6 @@ fi
 case "$1" in
   explain) exec "$here/bin/verifcheck" explain "$2" ;;
   list|manifest) exec "$here/bin/verifcheck" "$1" ;;
+  checkall) shift; exec "$here/bin/verifcheck" checkall "$@" ;;
   *) exec "$here/bin/verifcheck" check "$1" "${2:-${VERIF_TIER:-quick}}" ;;
 esac
